@@ -1,6 +1,19 @@
-(* Properties/C13.v — statements only (being extended). *)
-From XV Require Import Base.Str Model.Sample Model.SampleCorr Proofs.SampleBase.
+(* Properties/C13.v — C13: models generated from sample documents accept those documents.
+   Statements only; every proof is `exact <lemma>` followed by its Print Assumptions.
+   Model: Model/Sample.v (faithful to xsdata/codegen/mappers/{element,mixins,dict}.py and
+   ClassUtils.flatten / reduce_classes / reduce_attributes / sorted_attrs / merge_attributes / filter_types);
+   the statements are the boolean predicates of Model/SampleCorr.v, which the check also evaluates on the
+   REAL reduce_classes output of every generated sample set. *)
+From Coq Require Import NArith List Bool.
+From XV Require Import Base.Str Model.Sample Model.SampleCorr Proofs.SampleFit.
+Import ListNotations.
 
-Theorem C13_attr_key_refl : forall a, attr_eqb a a = true.
-Proof. exact attr_eqb_refl. Qed.
-Print Assumptions C13_attr_key_refl.
+(* 1. samples_fit + attrs_fit: for EVERY set of sample trees and EVERY behaviour of the converter tests, every
+      node of every sample that gets a class (the root and every element with attributes or children) finds,
+      in the merged class of its name, a slot for each child element (a list slot when the child name occurs
+      more than once in the node: capacity >= occurrences), for each attribute and for its text; every part of
+      the merged class that the node lacks has min_occurs = 0; text between children needs and finds a mixed
+      class.  No side condition. *)
+Theorem C13_samples_fit : forall cv (S : list tree), forallb (tree_fits (classes_of_xml cv S)) S = true.
+Proof. exact samples_fit. Qed.
+Print Assumptions C13_samples_fit.
